@@ -1866,6 +1866,366 @@ def _try_hash(y):
 
 
 # ---------------------------------------------------------------------------
+# sequences: observe - modify in place - observe again, on ONE object
+#
+# The eq_* and copies sub-checks build every object freshly and hash it once.
+# Here one object (and up to two copies derived from it on the way, which
+# share children with it to the documented extent) lives through a short
+# history of observations (hash(), set/dict membership, ==, repr) and of
+# in-place modifications through the public routes, at every nesting level.
+# Oracle: observers are pure.  The same history WITHOUT the observations is
+# run on a second, freshly built object (the "twin", which is never hashed or
+# compared before the check); afterwards both must have the same state, be
+# equal (both directions), have the same hash value and be one set member /
+# dictionary key.
+
+_CIM_OBJ = (CIMInstanceName, CIMClassName, CIMInstance, CIMClass, CIMProperty,
+            CIMMethod, CIMParameter, CIMQualifier, CIMQualifierDeclaration)
+_DICT_ATTRS = [
+    (CIMInstanceName, ('keybindings',)),
+    (CIMInstance, ('properties', 'qualifiers')),
+    (CIMClass, ('properties', 'methods', 'qualifiers')),
+    (CIMProperty, ('qualifiers',)),
+    (CIMParameter, ('qualifiers',)),
+    (CIMMethod, ('parameters', 'qualifiers')),
+    (CIMQualifierDeclaration, ('scopes',)),
+]
+_MAKERS = {
+    'keybindings': lambda n: 'mut',
+    'items': lambda n: 'mut',
+    'scopes': lambda n: True,
+    'properties': lambda n: CIMProperty(n, 'mut'),
+    'qualifiers': lambda n: CIMQualifier(n, 'mut'),
+    'methods': lambda n: CIMMethod(n, 'string'),
+    'parameters': lambda n: CIMParameter(n, 'uint8'),
+}
+
+
+def live_tree(root, maxdepth=3, fanout=2):
+    """
+    The CIM objects and child dictionaries reachable from the live object
+    root: (objs, dicts) with objs = [(label, object, level)] and dicts =
+    [(label, role, dictionary, level)]; level 0 = root / its own
+    dictionaries.  Only the first `fanout` items of each dictionary are
+    followed.
+    """
+    objs, dicts = [], []
+
+    def visit(o, lab, lvl):
+        if isinstance(o, _BaseNocaseDict):
+            dicts.append((lab + 'items', 'items', o, lvl))
+            for v in list(o.values())[:fanout]:
+                if isinstance(v, _CIM_OBJ):
+                    visit(v, lab + 'items[].', lvl + 1)
+            return
+        objs.append((lab, o, lvl))
+        if lvl >= maxdepth:
+            return
+        for cls, attrs in _DICT_ATTRS:
+            if isinstance(o, cls):
+                for attr in attrs:
+                    d = getattr(o, attr)
+                    dicts.append((lab + attr, attr, d, lvl))
+                    for v in list(d.values())[:fanout]:
+                        if isinstance(v, _CIM_OBJ):
+                            visit(v, lab + attr + '[].', lvl + 1)
+        if isinstance(o, (CIMInstance, CIMClass)) and o.path is not None:
+            visit(o.path, lab + 'path.', lvl + 1)
+        if isinstance(o, (CIMProperty, CIMParameter)):
+            vo = _obj_in_value(o.value)
+            if vo is not None:
+                visit(vo, lab + 'value.', lvl + 1)
+
+    visit(root, '', 0)
+    return objs, dicts
+
+
+def _dict_api_ops(d, role, lab, lvl):
+    "all modifying methods of a child dictionary (not only those with a key)"
+    mk = _MAKERS[role]
+    pre = '' if lvl == 0 else 'deep-'
+    ops = []
+    if len(d):
+        k = _first(d)
+        ops += [
+            (lab + '.popitem', pre + 'nokey', d.popitem),
+            (lab + '.clear', pre + 'nokey', d.clear),
+            (lab + '.pop', pre + 'dictapi', lambda: d.pop(k)),
+            (lab + '.delitem', pre + 'dictapi', lambda: d.__delitem__(k)),
+            (lab + '.replace', pre + 'dictapi',
+             lambda: d.__setitem__(k, mk(k))),
+            (lab + '.setdefault-existing', pre + 'dictapi',
+             lambda: d.setdefault(k, mk(k))),
+        ]
+    ops += [
+        (lab + '.setitem', pre + 'dictapi',
+         lambda: d.__setitem__('MutSI', mk('MutSI'))),
+        (lab + '.setdefault', pre + 'dictapi',
+         lambda: d.setdefault('MutSD', mk('MutSD'))),
+        (lab + '.update-dict', pre + 'dictapi',
+         lambda: d.update({'MutU': mk('MutU')})),
+        (lab + '.update-kw', pre + 'dictapi',
+         lambda: d.update(MutKw=mk('MutKw'))),
+        (lab + '.update-pairs', pre + 'dictapi',
+         lambda: d.update([('MutUp', mk('MutUp'))])),
+    ]
+    return ops
+
+
+def _nested_attr_ops(o, lab):
+    "attribute assignments on a nested object (held by a dictionary/value)"
+    ops = []
+
+    def name(attr, base):
+        cur = getattr(o, attr)
+        new = base if (cur or '').lower() != base.lower() else base + '2'
+        ops.append((lab + attr, 'deep-attr', lambda: setattr(o, attr, new)))
+
+    def flip(attr):
+        ops.append((lab + attr, 'deep-attr', lambda: _flag_flip(o, attr)))
+
+    def value():
+        # NULL <-> a valid value of the type
+        ops.append((lab + 'value', 'deep-attr',
+                    lambda: setattr(o, 'value', _valid_value(o))))
+
+    if isinstance(o, CIMInstanceName):
+        name('classname', 'Mut_DC')
+        name('namespace', 'mut/dns')
+        name('host', 'mutdh')
+    elif isinstance(o, CIMClassName):
+        name('classname', 'Mut_DC')
+        name('host', 'mutdh')
+    elif isinstance(o, (CIMInstance, CIMClass)):
+        name('classname', 'Mut_DC')
+    elif isinstance(o, CIMProperty):
+        value()
+        name('class_origin', 'Mut_DCO')
+        flip('propagated')
+        ops.append((lab + 'array_size', 'deep-attr', lambda: setattr(
+            o, 'array_size', 9 if o.array_size is None else None)))
+    elif isinstance(o, CIMParameter):
+        value()
+        ops.append((lab + 'array_size', 'deep-attr', lambda: setattr(
+            o, 'array_size', 9 if o.array_size is None else None)))
+    elif isinstance(o, CIMMethod):
+        ops.append((lab + 'return_type', 'deep-attr', lambda: setattr(
+            o, 'return_type',
+            'sint16' if o.return_type != 'sint16' else 'uint8')))
+        name('class_origin', 'Mut_DCO')
+        flip('propagated')
+    elif isinstance(o, CIMQualifier):
+        value()
+        flip('tosubclass')
+        flip('propagated')
+    return ops
+
+
+_SEQ_WEIGHT = {'rebind': 1, 'dict': 2, 'list': 3, 'path': 4, 'valobj': 4,
+               'child': 4, 'nokey': 8, 'dictapi': 1, 'deep-nokey': 4,
+               'deep-dictapi': 1, 'deep-attr': 3}
+# mutations that do not go through a dictionary/attribute of the object
+# itself but change something it holds (only) by reference
+_NESTED = ('path', 'valobj', 'child', 'deep-nokey', 'deep-dictapi',
+           'deep-attr')
+
+
+def seq_ops(kind, y):
+    """
+    Modification operations for the sequences sub-check: those of live_ops()
+    (all depth classes) plus, at every nesting level, all modifying methods
+    of the child dictionaries and attribute assignments on nested objects.
+    """
+    objs, dicts = live_tree(y)
+    ops = list(live_ops(kind, y))
+    for lab, role, d, lvl in dicts:
+        ops.extend(_dict_api_ops(d, role, lab, lvl))
+    for lab, o, lvl in objs:
+        if lvl > 0:
+            ops.extend(_nested_attr_ops(o, lab))
+    out = []
+    for op in ops:
+        out.extend([op] * _SEQ_WEIGHT[op[1]])
+    return out
+
+
+SEQ_KINDS = [k for k in KINDS if k != 'datetime']    # immutable
+PRE = ['hash', 'set', 'dict', 'parts', 'eq', 'repr', 'none', 'hash']
+_HASHING = ('hash', 'set', 'dict', 'parts')
+MAX_WORLD = 3
+
+
+def seq_strategy():
+    mut = st.tuples(st.integers(0, MAX_WORLD - 1),
+                    st.integers(0, 2 ** 30 - 1))
+    derive = st.one_of(
+        st.none(), st.none(),
+        st.tuples(st.sampled_from(METHODS), st.integers(0, MAX_WORLD - 1)))
+    rnd = st.tuples(derive, st.lists(mut, min_size=1, max_size=3),
+                    st.sampled_from(['full', 'full', 'eq']))
+    per_kind = {}
+    for k in SEQ_KINDS:
+        per_kind[k] = st.tuples(
+            st.just(k), recipe(k), st.sampled_from(PRE),
+            st.lists(rnd, min_size=1, max_size=3))
+    return st.sampled_from(SEQ_KINDS).flatmap(per_kind.__getitem__)
+
+
+def _observe(ctx, kind, x, how, r):
+    "pure observations of the live object x"
+    if how == 'hash':
+        _hash(ctx, x, kind)
+    elif how == 'set':
+        try:
+            if x not in {x}:
+                ctx.fail('seq:not-member-of-own-set:' + kind, repr(x))
+        except Exception as exc:  # pylint: disable=broad-except
+            _fail_exc(ctx, exc, 'hash:raises:' + kind, '%r for %r' % (exc, x))
+    elif how == 'dict':
+        try:
+            if {x: 1}.get(x) != 1:
+                ctx.fail('seq:not-key-of-own-dict:' + kind, repr(x))
+        except Exception as exc:  # pylint: disable=broad-except
+            _fail_exc(ctx, exc, 'hash:raises:' + kind, '%r for %r' % (exc, x))
+    elif how == 'eq':
+        other = build(r)
+        _cmp(ctx, x, other, kind)
+        _cmp(ctx, other, x, kind, neg=True)
+    elif how == 'parts':
+        objs, dicts = live_tree(x)
+        for _lab, o, _lvl in objs:
+            _hash(ctx, o, kind)
+        for _lab, _role, d, _lvl in dicts:
+            _hash(ctx, d, kind)
+    elif how == 'repr':
+        repr(x)
+
+
+def _seq_round(kind, world, rnd, trace, expect=None):
+    """
+    Apply the derivation and the mutations of one round to the world (list
+    of live objects).  The labels of what was applied are appended to trace;
+    with expect (the trace of the observed run) a deviation returns False.
+    """
+    derive, muts, _mode = rnd
+    if derive is not None and len(world) < MAX_WORLD:
+        method, src = derive
+        if kind == 'ncd' and method == 'copy.copy':
+            method = 'copy()'    # a shallow copy shares the item storage
+        # Child dictionaries are created lazily on the first read access, so
+        # whether copy.copy() shares an (empty) child dictionary depends on
+        # whether it was ever read.  That is not promised either way: read
+        # them all (in both runs) before copying
+        live_tree(world[src % len(world)])
+        world.append(do_copy(world[src % len(world)], method))
+        trace.append(('derive', src % len(world[:-1]), method))
+    for t, s in muts:
+        i = t % len(world)
+        ops = seq_ops(kind, world[i])
+        if not ops:
+            continue
+        lab, depth, thunk = ops[s % len(ops)]
+        if expect is not None and (len(trace) >= len(expect) or
+                                   expect[len(trace)] != (depth, i, lab)):
+            return False
+        thunk()
+        trace.append((depth, i, lab))
+    return True
+
+
+def seq_oracle(ctx, ex):
+    # pylint: disable=too-many-locals,too-many-branches,too-many-statements
+    kind, r, pre, rounds = ex
+    r = norm(r)
+    classes = ['kind:' + kind, 'pre:' + pre, 'rounds:%d' % len(rounds)]
+    world = [build(r)]
+    _observe(ctx, kind, world[0], pre, r)
+    hashed = [pre in _HASHING]      # per world object: hashed at some time
+    observed = pre != 'none'
+    trace = []
+    after_obs = 0
+    ok = True
+    for ri, rnd in enumerate(rounds):
+        n0 = len(trace)
+        nworld = len(world)
+        try:
+            _seq_round(kind, world, rnd, trace)
+        except Exception as exc:  # pylint: disable=broad-except
+            if len(world) > nworld or rnd[0] is None or \
+                    exc_signature(exc) is None:
+                raise
+            # the derivation (copy) itself failed
+            ctx.fail_exc(exc, 'seq:copy-raises:' + kind)
+            break
+        if len(world) > nworld:
+            hashed.append(hashed[trace[n0][1]])
+            classes.append('derive:' + trace[n0][2] +
+                           (':of-hashed' if hashed[-1] else ''))
+        applied = [t for t in trace[n0:] if t[0] != 'derive']
+        for depth, i, _lab in applied:
+            classes.append('mut:' + depth)
+            if hashed[i]:
+                classes.append('hashed-then:' + depth)
+            if observed:
+                after_obs += 1
+        mode = 'full' if ri == len(rounds) - 1 else rnd[2]
+        classes.append('check:' + mode)
+        # the twin: same history up to here, never observed
+        twin = [build(r)]
+        ttrace = []
+        same = True
+        for rnd2 in rounds[:ri + 1]:
+            if not _seq_round(kind, twin, rnd2, ttrace, expect=trace):
+                same = False
+                break
+        hist = 'pre-observation %s, then %r' % (pre, trace)
+        if not same or ttrace != trace or len(twin) != len(world):
+            ctx.fail('seq:observing-changes-state:' + kind,
+                     'the unobserved twin offers other operations\n  %s\n  '
+                     'twin: %r' % (hist, ttrace))
+            break
+        group = 'nested' if any(t[0] in _NESTED for t in applied) else 'own'
+        for i, (x, t) in enumerate(zip(world, twin)):
+            who = 'object' if i == 0 else 'derived copy %d' % i
+            dx, dt_ = dump(x), dump(t)
+            if dx != dt_:
+                ctx.fail('seq:observing-changes-state:' + kind,
+                         '%s: %s\n  observed: %r\n  twin:     %r' %
+                         (who, hist, dx, dt_))
+                ok = False
+                break
+            e1 = _cmp(ctx, x, t, kind)
+            e2 = _cmp(ctx, t, x, kind)
+            if e1 is False or e2 is False:
+                ctx.fail('seq:not-equal-to-unobserved-twin:' + kind,
+                         '%s: %s\n  %r\n  twin: %r' % (who, hist, x, t))
+                continue
+            if _cmp(ctx, x, t, kind, neg=True):
+                ctx.fail('ne:not-negation-of-eq:' + kind,
+                         '%s: %s\n  %r\n  twin: %r' % (who, hist, x, t))
+            if mode != 'full' or e1 is None or e2 is None:
+                continue
+            hx = _hash(ctx, x, kind)
+            ht = _hash(ctx, t, kind)
+            hashed[i] = True
+            if hx is None or ht is None:
+                continue
+            if hx != ht:
+                ctx.fail('seq:hash-stale:%s:%s' % (group, kind),
+                         '%s == its never-hashed twin but the hashes differ'
+                         '\n  %s\n  %r' % (who, hist, x))
+            elif t not in {x} or {x: 1}.get(t) != 1:
+                ctx.fail('seq:set-dict-membership:' + kind,
+                         '%s: %s\n  %r' % (who, hist, x))
+        if not ok:
+            break
+        observed = True
+    classes.append('world:%d' % len(world))
+    ctx.case(key=(kind, r, pre, rounds), nontrivial=after_obs > 0,
+             classes=classes)
+
+
+# ---------------------------------------------------------------------------
 
 SUBCHECKS = [
     Sub('eq_paths', strategy=laws_strategy(['ipath', 'ipath', 'cpath']),
@@ -1880,4 +2240,6 @@ SUBCHECKS = [
         oracle=laws_oracle, quick=(4, 1200), thorough=(8, 30000)),
     Sub('copies', strategy=copies_strategy, oracle=copies_oracle,
         quick=(12, 1000), thorough=(16, 40000)),
+    Sub('sequences', strategy=seq_strategy, oracle=seq_oracle,
+        quick=(8, 500), thorough=(16, 20000)),
 ]
